@@ -37,6 +37,13 @@ THEOREMS = [
     "PorepyVerif.C33.bsp_overlaps_sum_all",
     "PorepyVerif.C33.match2d_avg_rows_one_of_rowsum",
     "PorepyVerif.C33.match2d_int_cols_one_of_colsum",
+    "PorepyVerif.C33.match1d_of_hyp",
+    "PorepyVerif.C33.line_tess_rowsum_anyorder",
+    "PorepyVerif.C33.line_tess_colsum_anyorder",
+    "PorepyVerif.C33.match1d_other_rows",
+    "PorepyVerif.C33.match2d_avg_rows_one_of_check",
+    "PorepyVerif.C33.match2d_int_cols_one_of_check",
+    "PorepyVerif.C33.match2d_entry_spec",
 ]
 LEAN_MODULES = ["PorepyVerif.C33.Props"]
 LEAN_DIRS = ["C44"]  # the 2-D model reuses the clipping functions and the convexity theorem of the C44 model
@@ -55,6 +62,9 @@ RULE = ("kinds: 1d (60%): two node sets on a common line, embedded in 3-D along 
         "triangle sets or on one or two random convex polygons per set (pairwise overlaps only), with and without return_simplexes; every piece "
         "must lie in the cells it is mapped to and the pieces of a pair of cells must add up to the exact overlap. mortar (10%): two Cartesian 2-D grids with one horizontal fracture, "
         "different resolutions and independent monotone piecewise-linear x-maps: match_grids_along_1d_mortar. "
+        "err2d (8%): match_2d as called with a Cartesian new/old grid, grids in different planes, or scaling in {averaged, integrated, None, 'foo', 'Averaged', ''} "
+        "(ValueError branches, compared with match2dEntry). Extra strata: 1-D extreme scale (coordinates ~2^14), unknown scaling string and a repeated call on every "
+        "1-D case, the driver evaluates hyp1d (1-D) and rowsOk/colsOk (2-D) on every well-formed case; tri2d with clockwise triangles / permuted numbering and one-square grids. "
         "non-trivial = both tessellations have >= 2 cells and are not identical; distinct = distinct cases")
 TRUSTED = [
     "modelled, not verified: segments_3d's direction / collinearity tests (tolerance 1e-8) are taken as 'the two cells are collinear' "
@@ -82,6 +92,10 @@ EXPLANATION = ("FULL in 1-D: model = double loop of line_tessellation over the c
                "match_2d rows/columns sum to one given the row/column sums. NOT proved: that the shoelace area of the clipped polygon only depends on the "
                "point set (order / redundancy of half-planes, symmetry, soundness of the bounding-box filter), which is what separates the BSP theorem "
                "from 'two arbitrary triangulations'; that gap is covered by the oracle (sums = measures, exact reference clipping) on the real code. "
+               "Deepening B: every hypothesis of the 1-D theorems (hyp1d) and the 2-D tessellation condition (rowsOk/colsOk) are decidable and evaluated by the "
+               "driver on every well-formed case (match1d_of_hyp, match2d_*_of_check); rows/columns are proved for any numbering of the cells "
+               "(line_tess_*_anyorder); match_1d with an unknown scaling (no else branch: raw lengths) and the ValueError branches of match_2d are modelled "
+               "(match1d_other_rows, match2d_entry_spec). "
                "surface_tessellations and match_grids_along_1d_mortar: oracle only. The three defects found here earlier are repaired in /repo "
                "(954bf8e45, 8582bd2b5, 107a27baf); their cases are replayed from the corpus.")
 ASSUMPTIONS = [
@@ -127,6 +141,10 @@ def _gen_1d(rng, tier):
         origin = [F(rng.randint(-9, 9), rng.choice([1, 3, 5])) for _ in range(3)]
         lo = F(rng.randint(-6, 6), rng.choice([1, 3]))
         length = rng.choice([F(1), F(2), F(7, 3), F(5)])
+    big = dyadic and rng.random() < 0.1
+    if big:  # stratum: extreme scale (coordinates ~ 2^14, cells from 2^-10 to 2^10)
+        origin = [F(rng.randint(-4096, 4096)) for _ in range(3)]
+        lo, length = F(rng.randint(-512, 512)), F(1024)
     hi = lo + length
     nmax = 12 if tier == "thorough" else 8
     na = rng.choice([1, 2, 3, rng.randint(2, nmax), rng.randint(1, nmax)])
@@ -183,7 +201,7 @@ def _gen_1d(rng, tier):
                 cells.append([2 * i, 2 * i + 1])
             gb = {"nodes": None, "cells": cells}
         gb["nodes"] = [frac(x) for x in tb2]
-    case = {"kind": "1d", "dir": d, "len": L, "origin": [frac(x) for x in origin], "a": ga, "b": gb, "dyadic": dyadic, "loose": loose, "near": near}
+    case = {"kind": "1d", "dir": d, "len": L, "origin": [frac(x) for x in origin], "a": ga, "b": gb, "dyadic": dyadic, "loose": loose, "near": near, "big": big}
     # tolerance of the unscaled matrix: keep it away from every overlap length (no float/rational tie)
     ws = [w for row in _overlaps_1d(case) for w in row]
     for tol in rng.sample([F(1, 10000), F(1, 8), F(1, 2), F(1), F(3)], 5):
@@ -211,7 +229,14 @@ def _gen_tri(rng, tier):
     if rng.random() < 0.12:
         grids[1] = json.loads(json.dumps(grids[0]))
     rot = rng.choice([0, 0, 1, 2, 3])
-    return {"kind": "tri2d", "Lx": Lx, "Ly": Ly, "grids": grids, "rot": rot}
+    if rng.random() < 0.1:  # stratum: smallest grids (one square = two triangles each)
+        grids = [{"nx": 1, "ny": 1, "disp16": [[0, 0]] * 4}, {"nx": rng.choice([1, 2]), "ny": 1, "disp16": [[0, 0]] * (4 if grids[1]["nx"] == 0 else 6)}]
+        grids[1]["disp16"] = [[0, 0]] * ((grids[1]["nx"] + 1) * 2)
+    case = {"kind": "tri2d", "Lx": Lx, "Ly": Ly, "grids": grids, "rot": rot}
+    if rng.random() < 0.35:  # stratum: clockwise triangles and permuted triangle numbering in the direct call of triangulations
+        case["flip"] = [rng.random() < 0.5 for _ in range(2)]
+        case["tperm"] = rng.randint(1, 10 ** 6)
+    return case
 
 
 def _gen_surf(rng, tier):
@@ -274,13 +299,15 @@ def _gen_mortar(rng, tier):
 
 def gen_case(rng, tier):
     r = rng.random()
-    if r < 0.6:
+    if r < 0.55:
         return _gen_1d(rng, tier)
-    if r < 0.8:
+    if r < 0.75:
         return _gen_tri(rng, tier)
-    if r < 0.9:
+    if r < 0.84:
         return _gen_surf(rng, tier)
-    return _gen_mortar(rng, tier)
+    if r < 0.92:
+        return _gen_mortar(rng, tier)
+    return _gen_err2d(rng, tier)
 
 
 # ------------------------------------------------------------------------------------------------ 1-D helpers
@@ -354,11 +381,15 @@ def _run_1d(case):
         out["triples"] = [[int(i), int(j), float(w)] for i, j, w in T]
     except Exception as e:
         out["triples"] = err_kind(e)
-    for name, sc in (("avg", "averaged"), ("int", "integrated"), ("none", None)):
+    for name, sc in (("avg", "averaged"), ("int", "integrated"), ("none", None), ("other", "no-such-scaling")):
         try:
             out[name] = pp.match_grids.match_1d(ga, gb, tol, sc).toarray().tolist()
         except Exception as e:
             out[name] = err_kind(e)
+    try:  # repeated call on the same grids: same answer (nothing is cached or modified)
+        out["repeat_same"] = pp.match_grids.match_1d(ga, gb, tol, "averaged").toarray().tolist() == out["avg"]
+    except Exception:
+        out["repeat_same"] = False
     out["vol_a"] = [float(v) for v in ga.cell_volumes]
     out["vol_b"] = [float(v) for v in gb.cell_volumes]
     if len(_memo) > 4000:
@@ -404,6 +435,22 @@ def _tri_grid(case, k, rot=None):
 
 def _tris(g):
     return g.cell_nodes().tocsc().indices.reshape((3, -1), order="F")
+
+
+def _tris_direct(case, k, t):
+    """triangle array for the direct call of triangulations: optionally clockwise vertex order / permuted numbering"""
+    if "flip" not in case:
+        return t
+    import random as _r
+    r = _r.Random(case["tperm"] + k)
+    t = t.copy()
+    if case["flip"][k]:
+        for c in range(t.shape[1]):
+            if r.random() < 0.6:
+                t[:, c] = t[::-1, c]
+    perm = list(range(t.shape[1]))
+    r.shuffle(perm)
+    return t[:, perm]
 
 
 def _poly_area(p):
@@ -474,7 +521,7 @@ def _run_tri(case):
     import porepy as pp
     rot = _ROTS[case.get("rot", 0)]
     (ga, fa), (gb, fb) = _tri_grid(case, 0, rot), _tri_grid(case, 1, rot)
-    ta, tb = _tris(ga), _tris(gb)
+    ta, tb = _tris_direct(case, 0, _tris(ga)), _tris_direct(case, 1, _tris(gb))
     area = float(case["Lx"] * case["Ly"])
     out = {"flat": (fa, fb, ta, tb), "area": area}
     try:
@@ -523,9 +570,11 @@ def impl_run(case):
         out = {"kind": "1d"}
         T = r["triples"]
         out["triples"] = T if isinstance(T, dict) else [[i, j, frac(w)] for i, j, w in T]
-        for k in ("avg", "int", "none"):
+        for k in ("avg", "int", "none", "other"):
             out[k] = r[k] if isinstance(r[k], dict) else [[frac(x) for x in row] for row in r[k]]
         return out
+    if case["kind"] == "err2d":
+        return _run_err2d(case)
     o = oracle(case)
     return {"kind": case["kind"], "oracle": "ok" if o is None else o["key"]}
 
@@ -539,19 +588,29 @@ def model_ops(case):
             p1, p2, t1, t2 = r["proj"]
             ops.append(_tri_op(p1[:2], p2[:2], t1, t2, tol, "matrices"))
         return ops
+    if case["kind"] == "err2d":
+        return [_err2d_op(case)]
     if case["kind"] != "1d":
         return []
     ca, cb = _cells_param(case, "a"), _cells_param(case, "b")
-    return [{"op": "match1d", "c1": [[frac(s), frac(e)] for s, e in ca], "c2": [[frac(s), frac(e)] for s, e in cb], "tol": case["tol"], "ptol": frac(_ptol(case))}]
+    op = {"op": "match1d", "c1": [[frac(s), frac(e)] for s, e in ca], "c2": [[frac(s), frac(e)] for s, e in cb], "tol": case["tol"], "ptol": frac(_ptol(case))}
+    if not case["loose"]:
+        # sorted node lists in the signed arc-length parameter: the driver evaluates the hypotheses of the theorems on them
+        sg = _sigma(case) * case["len"]
+        for nm, which in (("na", "a"), ("nb", "b")):
+            op[nm] = [frac(x) for x in sorted(F(x) * sg for x in case[which]["nodes"])]
+    return [op]
 
 
 def model_decode(outs, case):
     if case["kind"] == "tri2d":
-        o = {"kind": "tri2d", "triples": outs[0].get("triples", outs[0])}
+        o = {"kind": "tri2d", "triples": outs[0].get("triples", outs[0]), "rowsOk": outs[0].get("rowsOk"), "colsOk": outs[0].get("colsOk")}
         src = outs[1] if len(outs) > 1 else {}
         for k in ("avg", "int", "none"):
             o[k] = src.get(k)
         return o
+    if case["kind"] == "err2d":
+        return {"kind": "err2d", "result": outs[0]}
     if case["kind"] != "1d":
         return {"kind": case["kind"], "model": "none (oracle only)"}
     o = dict(outs[0])
@@ -568,6 +627,9 @@ def _compare_tri(impl, model, case):
     ti, tm = impl["triples"], model["triples"]
     if isinstance(ti, dict) or isinstance(tm, dict):
         return None if ti == tm else f"triples: {ti} vs {tm}"
+    if model.get("rowsOk") is not True or model.get("colsOk") is not True:
+        return (f"model: the decidable tessellation condition rowsOk/colsOk (hypothesis of match2d_*_of_check) is "
+                f"{model.get('rowsOk')}/{model.get('colsOk')} on two triangulations of one rectangle (exact rationals)")
     thr = 1e-10 * area
     si = [(t[0], t[1]) for t in ti if float(F(t[2])) > thr]
     sm = [(t[0], t[1]) for t in tm if float(F(t[2])) > thr]
@@ -600,10 +662,27 @@ def _compare_tri(impl, model, case):
 def compare(impl, model, case):
     if case["kind"] == "tri2d":
         return _compare_tri(impl, model, case)
+    if case["kind"] == "err2d":
+        if "harness_exc" in impl:
+            return "impl_run crashed: " + impl["harness_exc"]
+        a, b = impl["result"], model["result"]
+        if ("err" in a) != ("err" in b) or ("err" in a and a != b):
+            return f"match_2d entry: impl {str(a)[:120]} vs model {str(b)[:120]}"
+        return None if "err" in a else deep_compare(a["M"], b["M"], "match_2d.entry", tol=1e-9)
     if case["kind"] != "1d":
         return None
     if "harness_exc" in impl:
         return "impl_run crashed: " + impl["harness_exc"]
+    model = dict(model)
+    hyp, srt = model.pop("hyp", None), model.pop("sorted", None)
+    if not case["loose"]:
+        if hyp is None:
+            return "model did not evaluate the hypotheses"
+        if not case.get("near") and hyp is not True:
+            return "model: hyp1d (hypotheses of the 1-D theorems) is false on a pair of tessellations of one segment"
+        identity = all(case[w]["cells"] == [[i, i + 1] for i in range(len(case[w]["cells"]))] for w in ("a", "b"))
+        if identity and _sigma(case) > 0 and srt is not True:
+            return "model: the cells sent are not `cells` of the sorted node lists"
     if set(impl) != set(model):
         return f"keys {sorted(impl)} vs {sorted(model)}"
     ti, tm = impl["triples"], model["triples"]
@@ -613,7 +692,7 @@ def compare(impl, model, case):
         return f"reported (i, j) pairs differ: impl {[t[:2] for t in ti]} vs model {[t[:2] for t in tm]}"
     for x, y in zip(ti, tm):
         wi, wm = F(x[2]), F(y[2])
-        if case["dyadic"] and not case.get("near"):
+        if case["dyadic"] and not case.get("near") and not case.get("big"):
             if wi != wm:
                 return f"weight of pair {x[:2]}: impl {wi} vs model {wm} (dyadic input: exact comparison)"
         elif abs(wi - wm) > 1e-12 * max(1, abs(wm)):
@@ -621,8 +700,8 @@ def compare(impl, model, case):
     d = deep_compare(impl["none"], model["none"], "none")
     if d:
         return d
-    for k in ("avg", "int"):
-        d = deep_compare(impl[k], model[k], k, tol=1e-12)
+    for k in ("avg", "int", "other"):
+        d = deep_compare(impl[k], model[k], k, tol=1e-12 * (max(1.0, float(case["len"]) * 64) if k == "other" else 1))
         if d:
             return d
     return None
@@ -676,9 +755,11 @@ def _dense(T, m, n):
 
 def _oracle_1d(case):
     r = _run_1d(case)
-    for k in ("triples", "avg", "int", "none"):
+    for k in ("triples", "avg", "int", "none", "other"):
         if isinstance(r[k], dict):
             return _fail(f"1d: {k} raised {r[k]['err']}", f"1d-{k}-raises-{r[k]['err']}")
+    if not r["repeat_same"]:
+        return _fail("1d: a second call of match_1d on the same grids gives another matrix", "1d-not-repeatable")
     ref = _overlaps_1d(case)
     m, n = len(case["a"]["cells"]), len(case["b"]["cells"])
     T = r["triples"]
@@ -763,6 +844,20 @@ def _oracle_tri(case):
     f = _check_sums("tri", W, vol_a, vol_b, area)
     if f:
         return f
+    if "flip" in case:  # the same with clockwise triangles / permuted numbering
+        ta2, tb2 = _tris_direct(case, 0, ta), _tris_direct(case, 1, tb)
+        try:
+            T2 = pp.intersections.triangulations(fa, fb, ta2, tb2)
+        except Exception as e:
+            return _fail(f"triangulations raised {type(e).__name__}: {e}", f"tri-triangulations-raises-{type(e).__name__}")
+        _, f = _diagnose_tri("triangulations(clockwise/permuted)", fa, fb, ta2, tb2, T2, area)
+        if f:
+            return f
+        va = np.array([float(_poly_area(_fpoly(fa[:, ta2[:, k]]))) for k in range(ta2.shape[1])])
+        vb = np.array([float(_poly_area(_fpoly(fb[:, tb2[:, k]]))) for k in range(tb2.shape[1])])
+        f = _check_sums("tri-permuted", _dense(T2, len(va), len(vb)), va, vb, area)
+        if f:
+            return f
     # (b) match_2d on the grids (possibly rotated into another plane of 3-D); its call of triangulations is recorded
     captured = []
     orig = pp.intersections.triangulations
@@ -952,6 +1047,82 @@ def _oracle_mortar(case):
     return None
 
 
+# ---- match_2d as called: option handling and error branches
+def _err2d_grids(case):
+    import porepy as pp
+    sub = {"kind": "tri2d", "Lx": case["Lx"], "Ly": case["Ly"], "grids": case["grids"], "rot": 0}
+    (ga, fa), (gb, fb) = _tri_grid(sub, 0), _tri_grid(sub, 1)
+    w = case["what"]
+    if w in ("cart_new", "cart_old"):
+        gd = case["grids"][0 if w == "cart_new" else 1]
+        gc = pp.CartGrid(np.array([gd["nx"], gd["ny"]]), np.array([float(case["Lx"]), float(case["Ly"])]))
+        gc.compute_geometry()
+        if w == "cart_new":
+            ga = gc
+        else:
+            gb = gc
+    if w == "other_plane":
+        R, sh = _ROTS[1]
+        gb.nodes = R @ gb.nodes + sh.reshape(3, 1)
+        gb.compute_geometry()
+    return ga, gb, fa, fb
+
+
+def _run_err2d(case):
+    import porepy as pp
+    ga, gb, _, _ = _err2d_grids(case)
+    area = float(case["Lx"] * case["Ly"])
+    sc = {"averaged": "averaged", "integrated": "integrated", "none": None}.get(case["mode"], case["mode"])
+    try:
+        M = pp.match_grids.match_2d(ga, gb, 1e-6 * area, sc).toarray().tolist()
+        return {"kind": "err2d", "result": {"M": [[frac(x) for x in row] for row in M]}}
+    except Exception as e:
+        return {"kind": "err2d", "result": err_kind(e), "message": str(e)}
+
+
+def _err2d_op(case):
+    sub = {"kind": "tri2d", "Lx": case["Lx"], "Ly": case["Ly"], "grids": case["grids"], "rot": 0}
+    (ga, fa), (gb, fb) = _tri_grid(sub, 0), _tri_grid(sub, 1)
+    op = _tri_op(fa, fb, _tris(ga), _tris(gb), 1e-6 * float(case["Lx"] * case["Ly"]), "entry")
+    w = case["what"]
+    op.update(simplexNew=w != "cart_new", simplexOld=w != "cart_old", coplanar=w != "other_plane", mode=case["mode"])
+    return op
+
+
+def _oracle_err2d(case):
+    """documented behaviour: ValueError for non-simplex grids, grids in different planes, unknown scaling; else a stochastic matrix"""
+    full = _run_err2d(case)
+    r = full["result"]
+    want_err = case["what"] != "ok" or case["mode"] not in ("averaged", "integrated", "none")
+    if want_err:
+        if r != {"err": "ValueError"}:
+            return _fail(f"match_2d({case['what']}, scaling={case['mode']}) should raise ValueError, got {str(r)[:80]}", f"err2d-{case['what']}-{'scaling' if case['what'] == 'ok' else 'grid'}-no-ValueError")
+        # the documented reason, not an accidental ValueError of numpy further down
+        reason = {"cart_new": "simplex", "cart_old": "simplex", "other_plane": "same plane", "ok": "Unknown scaling"}[case["what"]]
+        if reason not in full.get("message", ""):
+            return _fail(f"match_2d({case['what']}, scaling={case['mode']}) raised ValueError('{full.get('message', '')[:80]}') instead of the documented one ('{reason}')", f"err2d-{case['what']}-wrong-reason")
+        return None
+    if "err" in r:
+        return _fail(f"match_2d raised {r['err']} on valid input", f"err2d-raises-{r['err']}")
+    M = np.array([[float(F(x)) for x in row] for row in r["M"]])
+    if case["mode"] == "averaged" and np.abs(M.sum(axis=1) - 1).max() > 1e-9:
+        return _fail("match_2d(averaged): a row does not sum to one", "err2d-averaged-rowsum")
+    if case["mode"] == "integrated" and np.abs(M.sum(axis=0) - 1).max() > 1e-9:
+        return _fail("match_2d(integrated): a column does not sum to one", "err2d-integrated-colsum")
+    return None
+
+
+def _gen_err2d(rng, tier):
+    c = _gen_tri(rng, "quick")
+    for g in c["grids"]:
+        if g["nx"] * g["ny"] > 9:
+            g["nx"], g["ny"] = min(g["nx"], 3), min(g["ny"], 3)
+            g["disp16"] = [[0, 0] for _ in range((g["nx"] + 1) * (g["ny"] + 1))]
+    what = rng.choice(["cart_new", "cart_old", "other_plane", "ok", "ok", "ok"])
+    mode = rng.choice(["averaged", "integrated", "none", "Averaged", "foo", ""]) if what == "ok" else rng.choice(["averaged", "integrated", "none", "foo"])
+    return {"kind": "err2d", "Lx": c["Lx"], "Ly": c["Ly"], "grids": c["grids"], "what": what, "mode": mode}
+
+
 _omemo = {}
 
 
@@ -961,7 +1132,7 @@ def oracle(case):
     if key in _omemo:
         return _omemo[key]
     k = case["kind"]
-    r = {"1d": _oracle_1d, "tri2d": _oracle_tri, "surf": _oracle_surf, "mortar": _oracle_mortar}[k](case)
+    r = {"1d": _oracle_1d, "tri2d": _oracle_tri, "surf": _oracle_surf, "mortar": _oracle_mortar, "err2d": _oracle_err2d}[k](case)
     if len(_omemo) > 4000:
         _omemo.clear()
     _omemo[key] = r
@@ -970,6 +1141,8 @@ def oracle(case):
 
 # ------------------------------------------------------------------------------------------------ bookkeeping
 def nontrivial(case):
+    if case["kind"] == "err2d":
+        return True
     if case["kind"] == "1d":
         return len(case["a"]["cells"]) >= 2 and len(case["b"]["cells"]) >= 2 and sorted(case["a"]["nodes"]) != sorted(case["b"]["nodes"])
     if case["kind"] in ("tri2d",) or (case["kind"] == "surf" and case["shape"] == "tri"):
@@ -1032,5 +1205,14 @@ def stats(cases, impl_outs):
         "1d_negative_direction": sum(1 for c in one if _sigma(c) < 0),
         "1d_max_cells": max([max(len(c["a"]["cells"]), len(c["b"]["cells"])) for c in one] or [0]),
         "tri2d_compared_with_model": kinds.get("tri2d", 0),
+        "tri2d_clockwise_or_permuted_direct_call": sum(1 for c in cases if c["kind"] == "tri2d" and "flip" in c),
+        "tri2d_one_square_grids": sum(1 for c in cases if c["kind"] == "tri2d" and c["grids"][0]["nx"] * c["grids"][0]["ny"] == 1),
+        "tri2d_identical_grids": sum(1 for c in cases if c["kind"] == "tri2d" and c["grids"][0] == c["grids"][1]),
+        "err2d_by_branch": {w: sum(1 for c in cases if c["kind"] == "err2d" and c["what"] == w) for w in ("cart_new", "cart_old", "other_plane", "ok")},
+        "err2d_unknown_scaling": sum(1 for c in cases if c["kind"] == "err2d" and c["what"] == "ok" and c["mode"] not in ("averaged", "integrated", "none")),
+        "1d_extreme_scale": sum(1 for c in one if c.get("big")),
+        "1d_identical_node_sets": sum(1 for c in one if sorted(c["a"]["nodes"]) == sorted(c["b"]["nodes"])),
+        "1d_hypotheses_evaluated_by_driver": sum(1 for c in one if not c["loose"]),
+        "1d_unknown_scaling_and_repeated_call": len(one),
         "oracle_only_surf_mortar": sum(v for k, v in kinds.items() if k not in ("1d", "tri2d")),
     }
